@@ -156,7 +156,9 @@ theorem round_stream (orig : Bytes) (routes : List (Route Src)) (hR : ∀ r ∈ 
       | done rs' cx'' tr' =>
         simp only []
         split
-        · exact ⟨hp.2, by intro _ h; cases h; exact hp.1⟩
+        · refine ⟨hp.2, ?_⟩
+          intro _ h; cases h
+          split <;> exact hp.1       -- `srcOps.arm` does not touch the connection
         · split
           · exact ih _ _ _ hp.1 hp.2
           · exact ⟨hp.2, by intro _ h; cases h; exact hp.1⟩
